@@ -159,6 +159,14 @@ def run(ctx, chk):
         chk.require(okt, "S4", b.defp + ":whole-snapshot", b.span, "the hashed payload is not serde_json::to_vec(<the whole snapshot parameter>): %s" % [short(e[2][0]) for e in tv], describe_path(r))
         up = calls_named(r, "::update")
         fin = calls_named(r, "::finalize")
+        if not up and not fin:
+            # one-shot form: Sha256::digest(&payload)
+            dg = calls_named(r, "::digest")
+            if len(dg) == 1:
+                a = argv(dg[0])[0]
+                a = a[1] if isinstance(a, tuple) and a[0] == "refval" else a
+                fake = ("call", "update", (None, a), None)
+                up, fin = [("call", "update", (None, a), fake, (), "", None, 0, None)], dg
         okh = len(up) == 1 and len(fin) == 1 and tv and argv(up[0])[1] == ("field", tv[0][3], "Ok", "0")
         chk.require(okh, "S4", b.defp + ":hash-of-payload", b.span, "digest input is %s" % [short(e[2][1])[:80] for e in up], describe_path(r))
         okf = bool(fin) and any(s == fin[0][3] for s in subterms(dict(v[3])["0"]))
